@@ -327,7 +327,7 @@ fn report(rep: &mut Report, ast: &RuleAst, text: &str, doc: &DVal, sw: Sw, cfg: 
 
 pub fn run(ctx: &Ctx) -> i32 {
     let shards = ctx.size(64, 1024);
-    let rules_per_shard = ctx.size(120, 600);
+    let rules_per_shard = ctx.size(500, 1500);
     let docs_per_rule = ctx.size(8, 12);
     let cfg = Cfg { tries: ctx.size(3, 8) };
     let rep = par_shards(ctx, shards, |shard| {
